@@ -8,7 +8,11 @@
 (* chain SEDs -> convolve -> fit -> write_parameters is decided by         *)
 (* FitKernel.  u0, v0 are multiples of 5 so that the photometry is on the  *)
 (* quarter-dex lattice.  Non-degeneracy of the grid is CHECKED, not        *)
-(* assumed.                                                                *)
+(* assumed.  An optional 4th model is DARK in one fitted band (zero flux:   *)
+(* log flux = -infinity): its chi^2 is NaN (inf - inf in the regression    *)
+(* sums) or the 1e30 that replaces an infinite chi^2 (distance mode), and  *)
+(* the code's ranking (np.argsort) puts both after every finite number, so *)
+(* it never displaces the planted model.                                   *)
 (***************************************************************************)
 EXTENDS FitKernel, TLC, Json
 Grids == << << <<0, 0, 0>>, <<4, -4, 8>>, <<-2, 6, 1>> >>,
@@ -17,7 +21,7 @@ Grids == << << <<0, 0, 0>>, <<4, -4, 8>>, <<-2, 6, 1>> >>,
 KPats == << <<4, 2, 1>>, <<0, 3, 1>> >>
 Plants == {<<0, 0>>, <<5, -10>>, <<10, 25>>, <<20, 0>>}     \* (u0, v0)
 VARIABLES cfg
-Init == cfg \in [g : 1..Len(Grids), k : 1..Len(KPats), mp : 1..3, pl : Plants, w : {1, 4, 16}, mode : {"indep", "dist"}, i0 : 1..3]
+Init == cfg \in [g : 1..Len(Grids), k : 1..Len(KPats), mp : 1..3, pl : Plants, w : {1, 4, 16}, mode : {"indep", "dist"}, i0 : 1..3, dark : 0..2]
 Spec == Init /\ [][UNCHANGED cfg]_cfg
 
 Grid == Grids[cfg.g]   K == KPats[cfg.k]   u0 == cfg.pl[1]   v0 == cfg.pl[2]
@@ -40,5 +44,13 @@ PlantedRecovered ==
   ELSE /\ FitD(cfg.mp)[cfg.i0].chi = Zero /\ FitD(cfg.mp)[cfg.i0].u = RInt(u0)
        /\ BestDist(FitD(cfg.mp)) = {cfg.i0}
        /\ NonDegenerate => \A m \in 1..3 : m # cfg.mp => \A i \in 1..3 : RSign(FitD(m)[i].chi) > 0
+\* ranking of the code: numbers ascending, NaN last.  Model 4 (present iff cfg.dark > 0) has zero flux in band cfg.dark:
+\* every sum of its regression is inf - inf
+NModels == IF cfg.dark = 0 THEN 3 ELSE 4
+ChiClass(m) == IF m = 4 THEN "nan" ELSE "num"      \* "nan" stands for NaN or Big (>= 1e30)
+BestChi(m) == IF cfg.mode = "indep" THEN FitM(m).chi ELSE FitD(m)[CHOOSE i \in BestDist(FitD(m)) : TRUE].chi
+Before(m1, m2) == ChiClass(m1) = "num" /\ (ChiClass(m2) = "nan" \/ RLt(BestChi(m1), BestChi(m2)))
+PlantedFirst == NonDegenerate => \A m \in 1..NModels : m # cfg.mp => Before(cfg.mp, m)
+DarkLast == cfg.dark > 0 => \A m \in 1..3 : Before(m, 4)
 EmitInv == PrintT(ToJson([cfg |-> cfg, grid |-> Grid, K |-> K, src |-> Src, nondeg |-> NonDegenerate]))
 =============================================================================
